@@ -100,8 +100,15 @@ def run(R):
             bad.append('formula modified')
         if bad:
             cex = None
-            if r[0] == 'ok' and is_ctls_state(f):
+            if 'restricted' in bad and r[0] == 'ok' and is_ctls_state(f):
                 cex = semantic_counterexample(f, r[1], rng)
+            if cex is None and 'LNot' in bad and ln[0] == 'ok':
+                # LNot(f) must be equivalent to not f: look for a structure/state where they differ
+                g0 = f if is_ctls_state(f) else ('A', f)
+                g1 = ln[1] if is_ctls_state(f) else ('A', ('not', ln[1]))
+                g0 = ('not', g0) if is_ctls_state(f) else g0
+                # state formulas: not f vs LNot f;  path formulas: A f vs A not (LNot f)
+                cex = semantic_counterexample(g0, g1, rng)
             R.violation('rewriting differs from the proved model: %s' % ','.join(bad),
                         {'logic': logic, 'formula': f, 'formula_str': fstr(f), 'impl_restricted': r, 'model_restricted': m_r,
                          'impl_LNot': ln, 'model_LNot': m_ln, 'semantic_counterexample': cex},
